@@ -332,7 +332,7 @@ func (g *c18Gen) dst() netip.AddrPort {
 
 var c18Outbounds = []int{0, 1, 2, 2, 3, 3, 4, 4, 7, 100, 0xFB, 0xFC, 0xFD, 0xFE, 0xFF}
 
-var c18AnsToks = []string{"1000", "0100", "1100", "0000", "0010", "0001", "0011", "1011", "0000", "1000"}
+var c18AnsToks = []string{"1000", "0100", "1100", "0000", "0010", "0001", "0011", "1011", "0000", "1000", "1000", "0100"}
 
 // ---------------------------------------------------------------- the world under test
 
@@ -350,6 +350,8 @@ func (w *c18World) reset() {
 	ctrl := &DnsController{dnsControllerStore: newDnsControllerStore()}
 	_ = ctrl.TryUpdateRuntime(&DnsControllerOption{
 		Log: w.log,
+		// a fixed cache TTL changes Deadline only; knowledge must follow the ORIGINAL deadline
+		FixedDomainTtl: map[string]int{"a.test": 1, "www.example.com": 3600, "re.test": 0},
 		NewCache: func(fqdn string, answers, ns, extra []dnsmessage.RR, deadline, originalDeadline time.Time) (*DnsCache, error) {
 			return &DnsCache{Answer: answers, NS: ns, Extra: extra, Deadline: deadline, OriginalDeadline: originalDeadline}, nil
 		},
@@ -371,6 +373,28 @@ func (w *c18World) reset() {
 	}
 	w.cp.dnsController = ctrl
 	w.script = map[string][]string{}
+}
+
+func (w *c18World) peekKnowledge(d string, dst netip.AddrPort) bool {
+	qtype := dnsmessage.TypeAAAA
+	if dst.Addr().Is4() {
+		qtype = dnsmessage.TypeA
+	}
+	v, ok := w.ctrl.dnsKnowledge.Load(w.ctrl.cacheKey(d, qtype))
+	if !ok {
+		return false
+	}
+	e, _ := v.(int64)
+	return e > time.Now().UnixNano()
+}
+
+func (w *c18World) peekNeg(d string) bool {
+	v, ok := w.cp.realDomainNegSet.Load(d)
+	if !ok {
+		return false
+	}
+	e, _ := v.(int64)
+	return time.Now().UnixNano() < e
 }
 
 func c18BuildMatcher(t *testing.T, log *logrus.Logger) *RoutingMatcher {
@@ -428,9 +452,9 @@ func TestVerifC18(t *testing.T) {
 	for n := 0; n < 256; n++ {
 		st.Emit(fmt.Sprintf("resv %d", n), c18Bool(consts.OutboundIndex(n).IsReserved()))
 	}
-	nPure := 6000
+	nPure := 20000
 	if VThorough() {
-		nPure = 150000
+		nPure = 400000
 	}
 	emitPure := func(s, class string) {
 		stats.Inc("pure.class." + class)
@@ -518,9 +542,9 @@ func TestVerifC18(t *testing.T) {
 		return res, e4, e6
 	}
 
-	nEpisodes := 250
+	nEpisodes := 1500
 	if VThorough() {
-		nEpisodes = 6000
+		nEpisodes = 40000
 	}
 	modes := []string{"ip", "domain", "domain", "domain", "domain+", "domain++"}
 	src := netip.MustParseAddrPort("192.0.2.10:12345")
@@ -557,6 +581,29 @@ func TestVerifC18(t *testing.T) {
 				}
 				w.script[name] = a
 				return a
+			}
+			if mode == "domain" || r.Chance(0.3) {
+				for _, host := range pool {
+					if !r.Chance(0.6) {
+						continue
+					}
+					is4 := r.Chance(0.5)
+					qtype, fam := dnsmessage.TypeAAAA, "6"
+					if is4 {
+						qtype, fam = dnsmessage.TypeA, "4"
+					}
+					ttl := []int{2, 5, 30, 600}[r.Intn(4)]
+					fq := dnsmessage.CanonicalName(host)
+					ans := []dnsmessage.RR{&dnsmessage.A{Hdr: dnsmessage.RR_Header{Name: fq, Rrtype: dnsmessage.TypeA, Class: dnsmessage.ClassINET, Ttl: 0}, A: net.IPv4(93, 184, 216, 34)}}
+					stats.Inc("op.dns")
+					st.Emit(fmt.Sprintf("dns %s %s %d -", c18Hex(host), fam, int64(ttl)*1e9), VRecover(func() string {
+						if err := w.ctrl.UpdateDnsCacheTtl(host, qtype, ans, nil, nil, ttl); err != nil {
+							return "err:" + err.Error()
+						}
+						keys = append(keys, w.ctrl.cacheKey(fq, qtype))
+						return "ok"
+					}))
+				}
 			}
 			nOps := 12 + r.Intn(30)
 			for k := 0; k < nOps; k++ {
@@ -658,6 +705,30 @@ func TestVerifC18(t *testing.T) {
 					ob := c18Outbounds[r.Intn(len(c18Outbounds))]
 					dst := gen.dst()
 					d, class := gen.domain(pool)
+					if mode == "domain" && r.Chance(0.55) {
+						d, class = pool[r.Intn(len(pool))], "name"
+						if r.Chance(0.15) {
+							d, class = genA.caseVariant(d), "name-variant"
+						}
+						if r.Chance(0.7) {
+							ob = 2 + r.Intn(3)
+						}
+					}
+					if mode == "domain" && !consts.OutboundIndex(ob).IsReserved() && d != "" {
+						// read-only peek at the three caches: which row of the domain-mode table is this?
+						switch {
+						case isIPLikeDomain(d):
+							stats.Inc("cdt.domain-row.ip-like")
+						case w.peekKnowledge(d, dst):
+							stats.Inc("cdt.domain-row.knowledge")
+						case w.cp.realDomainSet.TestString(d):
+							stats.Inc("cdt.domain-row.verified")
+						case w.peekNeg(d):
+							stats.Inc("cdt.domain-row.negative-cached")
+						default:
+							stats.Inc("cdt.domain-row.unknown")
+						}
+					}
 					ans := answers(d)
 					op := fmt.Sprintf("cdt %d %s %s %s", ob, c18DstTok(dst), c18Hex(d), strings.Join(ans, " "))
 					stats.Inc("cdt.mode." + mode)
@@ -712,11 +783,14 @@ func TestVerifC18(t *testing.T) {
 						return out
 					}))
 				default: // routeDial: what is actually sent to the node dialer
-					ob := c18Outbounds[r.Intn(len(c18Outbounds))]
+					ob := []int{2, 3, 4, 2, 3, 4, 0, 1, 0xFD, 0xFD, 7, 0xFC}[r.Intn(12)]
 					dst := gen.dst()
 					d, class := gen.domain(pool)
+					if (mode == "domain" || mode == "domain++") && r.Chance(0.5) {
+						d, class = pool[r.Intn(len(pool))], "name"
+					}
 					ans := answers(d)
-					nOut := []int{5, 5, 5, 5, 4, 3, 2}[r.Intn(7)]
+					nOut := []int{5, 5, 5, 5, 5, 5, 5, 5, 4, 3, 2}[r.Intn(11)]
 					network := "tcp"
 					proto := consts.L4ProtoType_TCP
 					if r.Chance(0.2) {
